@@ -265,6 +265,25 @@ def fuzzy_kinds(rng, nparts):
     return [[rng.choice("eeebawto"), rng.choice("eeebawto")] for _ in range(nparts)]
 
 
+class Paper(object):
+    """a reference that is not a Bio.SeqFeature.Reference (record annotations accept any object): same fields, value equality"""
+
+    def __init__(self):
+        self.location = []
+        self.authors = self.consrtm = self.title = self.journal = self.medline_id = self.pubmed_id = self.comment = ""
+
+    def __eq__(self, other):
+        return isinstance(other, Paper) and vars(self) == vars(other)
+
+    def __ne__(self, other):
+        return not self == other
+
+    __hash__ = None
+
+    def __repr__(self):
+        return "Paper(title=%r)" % self.title
+
+
 def make_record(spec, cls=None):
     """materialised spec -> CircularRecord (fresh objects every call)"""
     boot.boot()
@@ -286,7 +305,7 @@ def make_record(spec, cls=None):
     if "refs" in spec:
         refs = []
         for r in spec["refs"]:
-            ref = Reference()
+            ref = Paper() if r.get("duck") else Reference()
             ref.title, ref.authors, ref.journal = r["title"], r["authors"], r["journal"]
             if r.get("span") is True:
                 ref.location = [FeatureLocation(0, len(spec["seq"]))]   # "bases 1 to N", as every parsed GenBank reference has
